@@ -151,6 +151,8 @@ def common_labels(res, ast, variant, form):
         res.label("rendering:at")
     if variant & (2 | 16):
         res.label("rendering:extra-parens")
+    if variant & 32 and form == "list" and ast[0] == "and" and any(x[0] == "or" for x in ast[1:]):
+        res.label("rendering:term-of-parenthesised-groups")
     if variant & (4 | 8):
         res.label("rendering:extra-blanks")
     if nops >= 2:
@@ -485,8 +487,8 @@ def enumerate_trees(operands, min_nodes, max_nodes, max_depth=99):
             yield ast
 
 
-TEXT_VARIANTS = [0, 1, 2, 4, 7, 8, 16, 21]
-LIST_VARIANTS = [0, 5, 16]
+TEXT_VARIANTS = [0, 1, 2, 4, 7, 8, 16, 21, 32]
+LIST_VARIANTS = [0, 5, 16, 32]
 
 
 def expr_cases(asts, text_variants=TEXT_VARIANTS, list_variants=LIST_VARIANTS):
@@ -517,7 +519,7 @@ def ast_st(operands, max_leaves=10):
     return st.recursive(leaf, extend, max_leaves=max_leaves).filter(lambda a: depth(a) <= 5)
 
 
-VARIANT_ST = st.integers(0, 31)
+VARIANT_ST = st.integers(0, 63)
 
 
 def random_expr_st(operands=None):
@@ -652,7 +654,7 @@ def required_labels(tier):
             "rendering:at", "rendering:extra-parens", "rendering:extra-blanks", "operators>=2", "negation",
             "depth:3", "depth:5", "placeholder:substituted", "placeholder:no-command-line-tags",
             "escaped-wildcard", "escaped-literal", "glob-edge", "glob-edge:overlap-candidate",
-            "operator-like-tag-names", "command-line", "command-line:--wip", "command-line:terms=3"] + ["placeholder:" + v for v in VIAS]
+            "rendering:term-of-parenthesised-groups", "operator-like-tag-names", "command-line", "command-line:--wip", "command-line:terms=3"] + ["placeholder:" + v for v in VIAS]
 
 
 KNOWN_PREDICATES = {}
